@@ -626,6 +626,13 @@ class FnAnalysis:
                     cons.append(LN.eq(a - b))
                 elif op == "Ne":
                     bools.append(("ne", LN.ccanon(LN.eq(a - b))))
+                    # x != MAX for an unsigned x is x <= MAX - 1; x != 0 is x >= 1
+                    for (x, y) in ((a, b), (b, a)):
+                        if y.is_const() and not x.is_const():
+                            if y.k in (2 ** 64 - 1, 2 ** 32 - 1, 2 ** 16 - 1, 255):
+                                cons.append(LN.le(x, Lin.const(y.k - 1)))
+                            elif y.k == 0:
+                                cons.append(LN.le(Lin.const(1), x))
                 elif op == "Lt":
                     cons.append(LN.lt(a, b))
                 elif op == "Le":
